@@ -72,7 +72,10 @@ func (pass *DisjunctionToType) processDisjunction(visitor *Visitor, schema *ast.
 		resolvedType, _ := schema.Resolve(disjunction.Branches[0])
 		scalarKind := resolvedType.AsScalar().ScalarKind
 
-		return ast.NewScalar(scalarKind, ast.Default(def.Default)), nil
+		scalarType := ast.NewScalar(scalarKind, ast.Default(def.Default))
+		scalarType.Nullable = def.Nullable
+
+		return scalarType, nil
 	}
 
 	// type | otherType | something (| null)?
